@@ -541,3 +541,19 @@ Proof.
   apply Permutation_app_head. apply Permutation_app_tail.
   apply perm_flat_map_ext; [|exact Hp]. intros t. apply validate_type_ext; assumption.
 Qed.
+
+(* also the order of the directive definitions *)
+Theorem validate_perm_full s s' :
+  NoDup (map t_name (s_types s)) -> Permutation (s_types s) (s_types s') ->
+  Permutation (s_dirs s) (s_dirs s') -> s_query s = s_query s' -> s_mutation s = s_mutation s' ->
+  s_subscription s = s_subscription s' -> s_default_resolver s = s_default_resolver s' ->
+  Permutation (validate_model s) (validate_model s').
+Proof.
+  intros Hnd Hp Hdirs Hq Hm Hs Hdr.
+  pose (s1 := mkSchema (s_types s') (s_dirs s) (s_query s') (s_mutation s') (s_subscription s') (s_default_resolver s')).
+  apply (Permutation_trans (l' := validate_model s1)).
+  - apply validate_perm; try assumption; reflexivity.
+  - unfold validate_model. simpl. apply Permutation_app; [apply Permutation_refl|].
+    apply Permutation_app; [apply Permutation_refl|].
+    unfold validate_directives. apply Permutation_flat_map. exact Hdirs.
+Qed.
